@@ -65,7 +65,7 @@ func init() {
 	// ------------------------------------------------------------------ C03
 	register("C03", func(r *Reporter) {
 		r.Cov["rule"] = "TLC enumerates the Shadow family of spec/Families.tla (fast/slow condition producer x 10 branch and jump kinds x every shadow of 1..2 instructions over register writes, stores, loads and jal x both branch outcomes by data); plus the Shadow2 family (shadow stores to a line that is already Modified in an L1, with 0..6 independent instructions varying the dispatch alignment; a shadow jump whose target lies beyond the branch target) and the Call family (a leaf function called from 2..3 sites returning through jalr, with an instruction after the jalr that is never on the path); each case runs on MVP-4..8 x parallelism 1..4; the focus set (registers and bytes the shadow would write) must hold the sequential values and the run must not fail. Non-trivial = the branch is taken (the shadow is on the wrong path)"
-		runFamily(r, "C03", []famRun{famRunOf("Shadow", sizeForTier()), famRunOf("Call", sizeForTier()), famRunOf("Shadow2", "small")}, cfgsFrom(4),
+		runFamily(r, "C03", []famRun{famRunOf("Shadow", sizeForTier()), famRunOf("Call", sizeForTier()), famRunOf("Shadow2", "small"), famRunOf("FarBack", "small")}, cfgsFrom(4),
 			func(c *ProgCase) bool { return c.extraBool("taken") },
 			func(c *ProgCase, o Obs) (bool, string) {
 				if !c.extraBool("taken") {
@@ -102,7 +102,7 @@ func init() {
 	// ------------------------------------------------------------------ C09
 	register("C09", func(r *Reporter) {
 		r.Cov["rule"] = "TLC enumerates the Tail family (every tail of 1..2 (quick) / 3 (thorough) instructions over load miss/hit, store miss/hit, dependent ALU chain, mul x exit by ret or by running past the end x warm/cold line) and the Tail2 family (stores immediately before ret to a line owned Modified by a busy core, 0..10 fillers); each runs on MVP-4..8 x parallelism 1..4; the registers and bytes the tail writes must hold the sequential values. All cases are non-trivial"
-		runFamily(r, "C09", []famRun{famRunOf("Tail", sizeForTier()), famRunOf("Tail2", "small")}, cfgsFrom(4), nil, focusJudge)
+		runFamily(r, "C09", []famRun{famRunOf("Tail", sizeForTier()), famRunOf("Tail2", "small"), famRunOf("EndAt", "small")}, cfgsFrom(4), nil, focusJudge)
 	})
 	// ------------------------------------------------------------------ C10
 	register("C10", func(r *Reporter) {
@@ -112,7 +112,7 @@ func init() {
 	// ------------------------------------------------------------------ C07
 	register("C07", func(r *Reporter) {
 		r.Cov["rule"] = "all program families (General, Shadow, RegDep, Tail, MemDep, MemWalk) plus the Err family (division/remainder by zero and undefined labels at depth 0..3) on all 33 configurations; plus the cache-controller rig schedules of C06 (pairs, triples, evictions, injected flushes) on MVP-7.0/7.1/8; verdict = the run exceeds its tick budget 8*309*(n+160+32p) (n = sequential instruction count), panics, blocks, or (Err) does not return an error value. Non-trivial = every case"
-		fams := []famRun{famRunOf("Err", sizeForTier()), famRunOf("Shadow", "small"), famRunOf("Tail", "small"), famRunOf("MemDep", "small"), famRunOf("RegDep", "small"), famRunOf("Call", "small"), famRunOf("LineFill", "small"), famRunOf("Repo", "small"), famRunOf("Unroll", "small")}
+		fams := []famRun{famRunOf("Err", sizeForTier()), famRunOf("Shadow", "small"), famRunOf("Tail", "small"), famRunOf("MemDep", "small"), famRunOf("RegDep", "small"), famRunOf("Call", "small"), famRunOf("LineFill", "small"), famRunOf("Repo", "small"), famRunOf("Unroll", "small"), famRunOf("FarBack", "small"), famRunOf("EndAt", "small")}
 		gr := generalRuns()
 		fams = append(fams, gr[0], gr[len(gr)-1])
 		if tier == "thorough" {
